@@ -16,7 +16,7 @@ func init() { register("C13", c13) }
 func c13(c *core.Check) {
 	c.Explain = "Thin: structural necessary conditions of a consistent table grid, decided on the SSA form and the syntax tree: (R1) a cell spans at least one column and a non-negative number of rows; (R2) the slot assignment of wrapTable gives each cell the first column not occupied by a row-spanning cell, advances the cursor by the cell's colspan, clamps rowspan to the rows left in the group (0 meaning all of them) and marks exactly the columns of the cell as occupied in the spanned rows — so two cells never receive the same slot; (R3) the side-mirrored assignments, the box-edge sums and the named arguments of the table layout code are consistent. Column width distribution, row heights, border-spacing arithmetic and the equalities between cell edges are numerical relations between runtime values and are not decided. Also decided: (R4) border-spacing is read only in the separated-borders model; (R5) the spacing term of a spanning cell counts the columns actually spanned; (R6) a row's bottom edge is computed from its final height."
 	_ = c.Prog
-	r1 := c.Rule("R1", "NewTableCellBox reads colspan with the lower bound 1 and rowspan with the lower bound 0", 2)
+	r1 := c.Rule("R1", "NewTableCellBox reads colspan within [1, 1000] and rowspan within [0, 65534] (HTML)", 4)
 	spanBounds(c, r1)
 
 	r2 := c.Rule("R2", "wrapTable's slot assignment: GridX is the cursor after skipping the columns occupied in this row; the cursor then advances by Colspan; Rowspan is clamped to the rows left in the group (all of them for 0); the columns marked as occupied in the spanned rows are those from GridX to GridX+Colspan", 5)
@@ -58,17 +58,35 @@ func spanBounds(c *core.Check, r *core.Rule) {
 			return
 		}
 		seen[core.FieldName(fa)] = true
-		got := int64(-99)
-		if call, ok := st.Val.(*ssa.Call); ok && len(call.Call.Args) == 2 {
+		got, upper := int64(-99), int64(-1)
+		if call, ok := st.Val.(*ssa.Call); ok && len(call.Call.Args) >= 2 {
 			if k, ok := core.ConstInt(call.Call.Args[1]); ok {
 				got = k
 			}
+			if len(call.Call.Args) >= 3 {
+				if k, ok := core.ConstInt(call.Call.Args[2]); ok {
+					upper = k
+				}
+			}
 		}
 		r.Cond(got == w, "NewTableCellBox | "+core.FieldName(fa)+" lower bound", p.Pos(st.Pos()), fmt.Sprintf("minimum %d", got), fmt.Sprintf("the attribute is read with the lower bound %d, HTML 5 gives %d", got, w))
+		limit := map[string]int64{"Colspan": 1000, "Rowspan": 65534}[core.FieldName(fa)]
+		r.Cond(upper >= w && upper <= limit, "NewTableCellBox | "+core.FieldName(fa)+" upper bound", p.Pos(st.Pos()), fmt.Sprintf("maximum %d", upper), fmt.Sprintf("the attribute is read with the upper bound %d (-1: none), HTML gives %d: the grid is allocated with the span as a size, and a huge value panics", upper, limit))
 	})
 	for f := range want {
 		if !seen[f] {
 			r.Fail("NewTableCellBox | "+f+" lower bound", p.Pos(fn.Pos()), "the field is not assigned")
+		}
+	}
+	// the span attribute of columns and column groups
+	if ia := p.Fn("html/boxes", "integerAttribute"); ia != nil {
+		sites, _ := p.CallSitesOf(ia)
+		for _, cs := range sites {
+			if cs.Parent() == fn || len(cs.Common().Args) < 3 {
+				continue
+			}
+			k, ok := core.ConstInt(cs.Common().Args[2])
+			r.Cond(ok && k <= 65534, core.FuncName(cs.Parent())+" | integer attribute upper bound", p.Pos(cs.Pos()), fmt.Sprintf("maximum %d", k), "an integer attribute of the document is read without a constant upper bound within the HTML limits: it sizes an allocation")
 		}
 	}
 }
